@@ -100,7 +100,7 @@ CHECKS = {
                 "merged order kept when the common elements agree. system: 2-3 replicas branch from a common commit, edit two flattened arrays concurrently (insert/remove/reorder/move between arrays/modify), sync; with leaf orders from the hook: every non-deleted id of some live leaf "
                 "occurs exactly once in the whole document, deleted ids nowhere, the winner's order kept, both orders kept for two compatible leaves. non-trivial (system) = >=2 live leaves on an array." + DISTINCT,
         "assumptions": ASSUME_COMMON,
-        "jobs": [mode("pairs", "c06unit", (326, 1957)), mode("merges", "c06sys", (64000, 400000))],
+        "jobs": [mode("pairs", "c06unit", (326, 1957)), mode("merges", "c06sys", (40000, 400000))],
     },
     "C07": {
         "level": "exploration", "floor": 20,
